@@ -49,7 +49,10 @@ type ExtractCase struct {
 	DirDepth int        `json:"dir_depth,omitempty"`
 	Seeds    []SeedSpec `json:"seeds,omitempty"`
 	Digest   string     `json:"digest,omitempty"` // "" = sha512-256 | sha256: index, store objects and `desync --digest sha256`
-	Bad      string     `json:"bad,omitempty"`    // self-test only: "unlink-dest" = the harness removes the destination after the death
+	// SeedAction: "" | skip | regenerate: --skip-invalid-seeds / --regenerate-invalid-seeds on both runs (the seeds of
+	// these cases are consistent, so the option changes nothing the statement talks about)
+	SeedAction string `json:"seed_action,omitempty"`
+	Bad        string `json:"bad,omitempty"` // self-test only: "unlink-dest" = the harness removes the destination after the death
 }
 
 // SeedSpec is one seed handed to the extract: a blob with its index, made of chunks of the case
@@ -543,6 +546,13 @@ func runExtract(c ExtractCase) (o hx.Outcome) {
 	if c.Inplace {
 		args = append(args, "-k")
 	}
+	switch c.SeedAction {
+	case "skip":
+		seedArgs = append([]string{"--skip-invalid-seeds"}, seedArgs...)
+	case "regenerate":
+		seedArgs = append([]string{"--regenerate-invalid-seeds"}, seedArgs...)
+	}
+	nSeedArgs := len(seedArgs) - len(seedArgs)%2 // (the action flag is not a seed)
 	args = append(args, seedArgs...)
 	args = append(args, "-n", strconv.Itoa(c.N), "-s", "http://"+srvAddr+"/"+prefix+"/", index, out)
 	var res procResult
@@ -564,7 +574,7 @@ func runExtract(c ExtractCase) (o hx.Outcome) {
 	served, nreq := st.served, len(st.reqs)
 	firstReqs := append([]string(nil), st.reqs...)
 	allServed := len(st.servedIDs) >= len(distinct) // every chunk the assembly has to fetch went out completely
-	if len(seedArgs) > 0 {                          // what a seed holds may or may not be fetched: the ones no seed has must all be out
+	if nSeedArgs > 0 {                              // what a seed holds may or may not be fetched: the ones no seed has must all be out
 		allServed = true
 		for id := range distinct {
 			if !seedIDs[id] && !st.servedIDs[id] {
@@ -608,10 +618,16 @@ func runExtract(c ExtractCase) (o hx.Outcome) {
 			}
 		}
 	}
-	if len(seedArgs) > 0 {
+	if c.SeedAction == "skip" || c.SeedAction == "regenerate" {
+		o.Class("extract:invalid-seed-action=" + c.SeedAction)
+		if c.Inplace {
+			o.Class("extract:invalid-seed-action=" + c.SeedAction + ":inplace")
+		}
+	}
+	if nSeedArgs > 0 {
 		desc := o.Desc.(map[string]any)
-		desc["seeds"], desc["seed_dirs"], desc["distinct_not_in_seeds"] = len(seedArgs)/2, nSeedDirs, needed
-		o.Key += fmt.Sprintf("/seeds%d/%d/%d", len(seedArgs)/2, nSeedDirs, needed)
+		desc["seeds"], desc["seed_dirs"], desc["distinct_not_in_seeds"] = nSeedArgs/2, nSeedDirs, needed
+		o.Key += fmt.Sprintf("/seeds%d/%d/%d", nSeedArgs/2, nSeedDirs, needed)
 		o.Class("extract:seed")
 		if nSeedDirs > 0 {
 			o.Class("extract:seed-dir")
